@@ -14,13 +14,15 @@ FN_TOTAL = ["abs", "ceil", "floor", "fract", "sign", "divmod", "sqrt", "log", "e
             "mix", "lt", "le", "gt", "ge", "not", "and", "or", "xor", "p2r", "addv", "subv", "scalev", "empty", "count"]
 # measured on this image and therefore NOT claimed:
 EXCLUDED = {
-    "tan asin acos atan r2p": "call libm functions (tanf, asinf, acosf, atanf, hypotf/atan2f) that Kani 0.68 does not model (reported as unsupported foreign function)",
+    "(tan asin acos atan r2p)": "call libm functions (tanf, asinf, acosf, atanf, hypotf/atan2f) that Kani 0.68 does not model: verified with f32::{tan,asin,acos,atan,atan2,hypot} stubbed by an arbitrary f32 result (sound over-approximation for 'never panics')",
     "head tail swap select if in eq ne": "clone / compare ExprValue lists (String-carrying enum): CBMC did not finish within 300 s per harness",
     "(random randint)": "verified with the generator state concrete (seed 0, first draw): the sampler of rand 0.9 is loop-free; other generator states are not covered",
     "split splitw trim join _": "String machinery",
 }
 ALWAYS = ["clamp", "divmod", "mean", "min"]
 # harnesses of their own shape (not the 0..=3 symbolic-argument driver): harness -> (built-in, number of symbolic f32 arguments, concrete arguments appended)
+# built-ins that call libm: verified with the libm-backed f32 methods replaced by an arbitrary result (over-approximation)
+FN_TOTAL3 = {"k_fn_total3_tan": "tan", "k_fn_total3_asin": "asin", "k_fn_total3_acos": "acos", "k_fn_total3_atan": "atan", "k_fn_total3_r2p": "r2p"}
 FN_TOTAL2 = {
     "k_fn_total2_randint": ("randint", 2, []),
     "k_fn_total2_random": ("random", 0, []),
@@ -163,7 +165,7 @@ def run_c01(tier, seed):
     names = list(FN_TOTAL)
     # both tiers run every claimed harness (a defect in an unsampled built-in would otherwise be missed);
     # the thorough tier only allows more time per harness
-    harnesses = ["k_fn_total_" + n for n in names] + list(FN_TOTAL2)
+    harnesses = ["k_fn_total_" + n for n in names] + list(FN_TOTAL2) + list(FN_TOTAL3)
     scratch = prepare_scratch()
     violations, known_hits, replays = [], [], 0
     try:
@@ -174,7 +176,7 @@ def run_c01(tier, seed):
         failed = [h for h, r in results.items() if r["status"] == "failed"]
         for h in failed:
             tests, raw = concrete_values(scratch, h)
-            fn = FN_TOTAL2[h][0] if h in FN_TOTAL2 else h[len("k_fn_total_"):]
+            fn = FN_TOTAL2[h][0] if h in FN_TOTAL2 else FN_TOTAL3[h] if h in FN_TOTAL3 else h[len("k_fn_total_"):]
             confirmed = False
             doc, status, vals = "", "no concrete test produced", []
             for vecs in tests:
@@ -199,30 +201,36 @@ def run_c01(tier, seed):
                 if status in ("panic", "abort"):
                     confirmed = True
                     break
-            if not confirmed and vals:
-                # CBMC over-approximates some float operations (notably `%`): the solver has decided that a failing input exists,
-                # but the concrete values of its trace need not be one.  Look for a concrete witness natively among the special
-                # values of each argument (and neighbours of the trace values); report only what reproduces.
+            if not confirmed:
+                # CBMC over-approximates some float operations (notably `%`), and its trace may carry no usable values (e.g. a failure
+                # with zero arguments): the solver has decided that a failing input exists; look for a concrete witness natively among
+                # the special values of each argument (and neighbours of the trace values); report only what reproduces.
                 import itertools, struct
                 def f32(bits):
                     return struct.unpack("<f", struct.pack("<I", bits & 0xFFFFFFFF))[0]
                 special = ["0", "1", "(0 - 1)", "0.5", "(0 - 0.5)", "2", "(0 - 2)", "90", "(0 - 90)", "180", "(0 - 180)", "270", "(0 - 270)", "360", "(0 - 360)", "450", "(0 - 450)",
-                           "16777216", "(0 - 16777216)", "2147483648", "(0 - 2147483648)", "4294967296", "1e38", "(0 - 1e38)", "1e-38", "(1 / 0)", "(0 - 1 / 0)", "(0 / 0)"]
-                per_arg = []
-                for b in vals:
-                    v = f32(b)
-                    near = []
-                    if v == v and abs(v) < 1e30:
-                        for q in (1, 45, 90, 360):
-                            k = round(v / q) * q
-                            near += [f32_expr(struct.unpack("<I", struct.pack("<f", float(k)))[0])]
-                    per_arg.append(list(dict.fromkeys([f32_expr(b)] + near + special)))
+                           "16777216", "(0 - 16777216)", "2147483648", "(0 - 2147483648)", "4294967296", "1e38", "(0 - 1e38)", "1e-38", "(0 - 0.000001)", "0.000001", "(1 / 0)", "(0 - 1 / 0)", "(0 / 0)"]
+                short = ["0", "1", "(0 - 1)", "0.5", "2147483648", "(0 - 0.000001)", "(1 / 0)", "(0 / 0)"]
+                combos = []
+                if vals:
+                    per_arg = []
+                    for b_ in vals:
+                        v = f32(b_)
+                        near = []
+                        if v == v and abs(v) < 1e30:
+                            for q in (1, 45, 90, 360):
+                                k = round(v / q) * q
+                                near += [f32_expr(struct.unpack("<I", struct.pack("<f", float(k)))[0])]
+                        per_arg.append(list(dict.fromkeys([f32_expr(b_)] + near + special)))
+                    combos = itertools.islice(itertools.product(*per_arg), 30000)
+                else:
+                    nsym = FN_TOTAL2[h][1] if h in FN_TOTAL2 else None
+                    lens = [nsym] if nsym is not None else [0, 1, 2, 3]
+                    combos = itertools.chain.from_iterable(itertools.product(*([special if n <= 1 else short] * n)) for n in lens)
                 tried = 0
-                for combo in itertools.product(*per_arg):
-                    if tried >= 30000:
-                        break
+                for combo in combos:
                     tried += 1
-                    args = ", ".join(list(combo) + [str(c) for c in FN_TOTAL2[h][2]] if h in FN_TOTAL2 else combo)
+                    args = ", ".join(list(combo) + ([str(c) for c in FN_TOTAL2[h][2]] if h in FN_TOTAL2 else []))
                     doc = f'<svg><text xy="0" text="{{{{{fn}({args})}}}}"/></svg>'
                     r = nat.run([doc], ())
                     replays += 1
@@ -273,14 +281,14 @@ def run_c01(tier, seed):
     wall = time.time() - t0
     cov = dict(
         states=max(1, len(ok)), transitions=max(1, sum(1 for _ in results)), traces_validated_against_impl=replays,
-        samples=[dict(harness=h, real_function="functions::eval_function(Function::%s, ..)" % (FN_TOTAL2[h][0] if h in FN_TOTAL2 else h[len("k_fn_total_"):]), inputs="0..=3 arguments, each any f32 bit pattern (kani::any)", verdict=results[h]["status"],
+        samples=[dict(harness=h, real_function="functions::eval_function(Function::%s, ..)" % (FN_TOTAL2[h][0] if h in FN_TOTAL2 else FN_TOTAL3[h] if h in FN_TOTAL3 else h[len("k_fn_total_"):]), inputs="0..=3 arguments, each any f32 bit pattern (kani::any)", verdict=results[h]["status"],
                       cbmc_time_s=results[h]["time"], stubs=results[h]["stubs"]) for h in list(results)[:6]],
         obligations=len(results), discharged=len(ok), harness_results={h: dict(status=r["status"], time_s=r["time"], failed_checks=r["failed"][:3], cover=r.get("cover")) for h, r in results.items()},
         solver="CBMC 6.11.0 (CaDiCaL) via Kani 0.68.0, default unwinding assertions on, #[kani::unwind(6)]",
         solver_time_s=round(sum((r["time"] or 0) for r in results.values()), 1), functions_encoded=["functions::eval_function", "expression::ExprValue::{number_list,one_number,number_pair,number_triple,flatten,pair}"],
         bounds="argument lists of 0..=3 numbers, every f32 bit pattern incl. NaN, infinities, subnormals; one harness per built-in (generic instantiation: none); unwind 6",
         excluded=dict(EXCLUDED, **{"(everything else)": "the token-level evaluator, tokenizer and everything byte-level (DESIGN.md §2)"}),
-        stubs=["alloc::fmt::format -> empty string (error message text is not the subject)"], nan_check_filter="failed checks of class 'NaN on <op>' are not counted: producing NaN is defined behaviour in Rust",
+        stubs=["alloc::fmt::format -> empty string (error message text is not the subject)", "f32::{tan,asin,acos,atan,atan2,hypot} -> arbitrary f32 (k_fn_total3_* only)"], nan_check_filter="failed checks of class 'NaN on <op>' are not counted: producing NaN is defined behaviour in Rust",
         exhaustive=False, new_violations=len(new_v), inconclusive=inconc)
     ev = dict(property_id="C01", tier=tier, seed=int(seed), level="model_checking", coverage=cov,
               assumptions=["Kani's model of the Rust standard library and of f32 operations (CBMC float semantics) is faithful", "alloc::fmt::format is stubbed",
